@@ -69,3 +69,10 @@ Theorem C15_race_unlocked_refuted :
   let r := fold_left rstep_unlocked [1; 2; 1; 2] race_init in r_pc r 1 = Done true /\ r_pc r 2 = Done true.
 Proof. exact race_unlocked_refuted. Qed.
 Print Assumptions C15_race_unlocked_refuted.
+
+(* the Stronghold-backed store (identity_stronghold): it refines the same contract - whatever it completes, the contract completes with the same result
+   and state, whatever it refuses leaves the store as it was (it refuses more: a private member that is not a 32-byte key, already at insertion) *)
+Theorem C15_stronghold_refines_contract : forall s o s' r, kstep_sh s o = (s', r) ->
+  (is_err r = false -> kstep s o = (s', r)) /\ (is_err r = true -> s' = s).
+Proof. exact kstep_sh_refines. Qed.
+Print Assumptions C15_stronghold_refines_contract.
